@@ -7,12 +7,12 @@ RULE = "Same program space as C09 with failing calls weighted up (duplicate pk/u
 ASSUMPTIONS = ['live SQLite (in-memory) with foreign keys enforced immediately',
                'reference store vlib/refstore.py written from the documented relationship/cascade/key semantics (DESIGN.md section 7a)',
                'table and column names are taken from the mapping metadata (names only)']
-SHARDS = {'quick': 4, 'thorough': 16}
-MIN_EVALS = {'quick': 400, 'thorough': 5000}
+SHARDS = {'quick': 8, 'thorough': 16}
+MIN_EVALS = {'quick': 3000, 'thorough': 5000}
 PROPS = {'C13'}
 WEIGHTS = {'setm': 7, 'set': 6, 'create': 7, 'del': 4, 'crem': 3, 'cclear': 2, 'read': 1, 'ident': 0, 'flush': 1, 'retake': 5}
 
-run = sesscheck.make_run(ID, PROPS, 600, 8000, weights=WEIGHTS,
+run = sesscheck.make_run(ID, PROPS, 1200, 10000, weights=WEIGHTS, hub_share=(1, 2),
                          nontrivial=lambda program, stats: any(k.startswith('call_failed') for k in stats))
 replay = sesscheck.make_replay(ID, PROPS)
 
